@@ -642,6 +642,9 @@ def sv_eq(ctx, st, a, b, node=None):
         if ka == kb == "bool":
             return a.z == b.z
         return as_int(ctx, st, a) == as_int(ctx, st, b)
+    if ka == "conc" and kb == "conc" and callable(a.z) and callable(b.z):
+        # two concrete Python function objects (e.g. entries of a live dispatch table): identity
+        return z3.BoolVal(a.z is b.z)
     if ka == "none" and kb == "none":
         return z3.BoolVal(True)
     if ka == "none" and kb == "optint":
